@@ -1486,4 +1486,164 @@ theorem ti_runQ (fuel : Nat) (w : W) (h : TI lo w) : TI lo (W.runQ fuel w) := by
       · exact hs
       · exact ih _ hs
 
+
+/-! ## harness operations -/
+
+theorem SO.mono {lo lo' : Nat} {w : W} (h : SO lo w) (hle : lo ≤ lo') : SO lo' w :=
+  ⟨h.ord, h.i, h.si, h.inc, fun i hi => h.z i (Nat.le_trans hle hi), fun k s hs => Nat.lt_of_lt_of_le (h.sb k s hs) hle⟩
+
+theorem TI.mono {lo lo' : Nat} {w : W} (h : TI lo w) (hle : lo ≤ lo') : TI lo' w := by
+  refine ⟨h.ki, h.j, h.aff, ?_⟩
+  rcases h.so with hs | hs
+  · exact Or.inl hs
+  · exact Or.inr (hs.mono hle)
+
+theorem ti_send (w : W) (m : FMsg) (hm : ∀ j, m ≠ .dispatch j) (hf : ∀ x, finKeys x [m] = []) (h : TI lo w) : TI lo (w.send m) := by
+  refine ⟨ki_send w m hm h.ki, j_send w m hf h.j, affInv_send w m h.aff, ?_⟩
+  unfold W.send
+  split
+  · exact h.so
+  · rename_i hst
+    rcases h.so with hs | hs
+    · exact absurd hs hst
+    · right
+      have hI : inboxJobs (w.inbox ++ [m]) = inboxJobs w.inbox := by
+        rw [inboxJobs_append]
+        cases m <;> first | exact absurd rfl (hm _) | simp [inboxJobs]
+      have hd : ∀ i, isDispatchOf i m = false := by
+        intro i; cases m <;> first | exact absurd rfl (hm _) | rfl
+      refine ⟨?_, ?_, ?_, hs.inc, ?_, hs.sb⟩
+      · show OrdW (inboxJobs (w.inbox ++ [m])) _ _
+        rw [hI]; exact hs.ord.of_actors rfl rfl rfl
+      · show (inboxJobs (w.inbox ++ [m])).Pairwise KO
+        rw [hI]; exact hs.i
+      · show ∀ x ∈ inboxJobs (w.inbox ++ [m]), _
+        rw [hI]; exact hs.si
+      · intro i hi
+        have := total_send i w m (hd i)
+        unfold W.send at this
+        rw [if_neg hst] at this
+        rw [this]; exact hs.z i hi
+
+theorem ti_advanceTo (t fuel : Nat) (w : W) (h : TI lo w) : TI lo (W.advanceTo t fuel w) := by
+  induction fuel generalizing w with
+  | zero => exact h.frame rfl rfl rfl rfl rfl rfl rfl ⟨rfl, rfl⟩ rfl rfl (fun _ => rfl)
+  | succ fuel ih =>
+    unfold W.advanceTo
+    split
+    · simp only
+      apply ih
+      apply ti_runQ
+      apply ti_send _ _ (fun _ hc => by cases hc) (fun _ => rfl)
+      exact h.frame rfl rfl rfl rfl rfl rfl rfl ⟨rfl, rfl⟩ rfl rfl (fun _ => rfl)
+    · exact h.frame rfl rfl rfl rfl rfl rfl rfl ⟨rfl, rfl⟩ rfl rfl (fun _ => rfl)
+
+/-- every job anywhere in the factory has an id below `lo` -/
+theorem SO.waiting_lt {w : W} (h : SO lo w) :
+    (∀ x ∈ inboxJobs w.inbox, x.id < lo) ∧ (∀ x ∈ w.queue, x.id < lo) ∧ (∀ p ∈ w.pool, ∀ x ∈ wq p w.env, x.id < lo) := by
+  have key : ∀ x : Job, 0 < total x.id w → x.id < lo := by
+    intro x hp
+    apply Classical.byContradiction
+    intro hge
+    have := h.z x.id (by omega)
+    omega
+  refine ⟨?_, ?_, ?_⟩
+  · intro x hx
+    exact key x (total_pos_of_waiting (List.mem_append_left _ (List.mem_append_left _ hx)))
+  · intro x hx
+    exact key x (total_pos_of_waiting (List.mem_append_left _ (List.mem_append_right _ hx)))
+  · intro p hp x hx
+    unfold wq at hx
+    rcases List.mem_append.mp hx with hx | hx
+    · unfold mbox at hx
+      cases g : w.env.getActor p.actor with
+      | none => rw [g] at hx; cases hx
+      | some a =>
+        rw [g] at hx
+        simp only at hx
+        split at hx
+        · exact key x (total_pos_of_held g (by unfold Actor.heldJobs; exact List.mem_append_right _ hx))
+        · cases hx
+    · exact key x (total_pos_of_waiting (List.mem_append_right _ (List.mem_flatMap.mpr ⟨p, hp, hx⟩)))
+
+theorem ti_dispatchOp (w : W) (id key hash : Nat) (ttl : Option Nat) (acc : Bool) (hle : lo ≤ id) (h : TI lo w) :
+    TI (id + 1) (w.applyOp (.dispatch id key hash ttl acc)) := by
+  have hj := j_applyOp w (.dispatch id key hash ttl acc) h.j rfl
+  have haf := affInv_applyOp w (.dispatch id key hash ttl acc) h.aff
+  have htot := total_applyOp
+  by_cases hst : w.stopped = true
+  · have : w.applyOp (.dispatch id key hash ttl acc) = w := by simp only [W.applyOp, hst, if_true]
+    rw [this]
+    exact ⟨h.ki, h.j, h.aff, Or.inl hst⟩
+  · have hso : SO lo w := by
+      rcases h.so with hs | hs
+      · exact absurd hs hst
+      · exact hs
+    obtain ⟨w1, w2, w3⟩ := hso.waiting_lt
+    have hkf : opFresh w (.dispatch id key hash ttl acc) := by
+      simp only [opFresh]
+      intro x hx _
+      unfold waiting at hx
+      rcases List.mem_append.mp hx with hx | hx
+      · rcases List.mem_append.mp hx with hx | hx
+        · exact Nat.lt_of_lt_of_le (w1 x hx) hle
+        · exact Nat.lt_of_lt_of_le (w2 x hx) hle
+      · obtain ⟨p, hp, hx'⟩ := List.mem_flatMap.mp hx
+        exact Nat.lt_of_lt_of_le (w3 p hp x (by unfold wq; exact List.mem_append_right _ hx')) hle
+    refine ⟨ki_applyOp w _ hkf h.ki, hj, haf, ?_⟩
+    right
+    have hz' : ∀ i, id + 1 ≤ i → total i (w.applyOp (.dispatch id key hash ttl acc)) = 0 := by
+      intro i hi
+      rw [htot]
+      have := hso.z i (by omega)
+      simp only [opFresh, opAdds]
+      have hne : (id == i) = false := by simp; omega
+      simp [this, hne]
+    simp only [W.applyOp] at hz' ⊢
+    rw [if_neg hst] at hz' ⊢
+    unfold W.send at hz' ⊢
+    have hst2 : ¬ ((w.emit (.dispatched id key acc)).stopped = true) := hst
+    rw [if_neg hst2] at hz' ⊢
+    generalize hjj : ({ id := id, key := key, hash := hash, expiry := ttl.map (w.env.now + ·), port := acc } : Job) = j at hz' ⊢
+    have hjid : j.id = id := by subst hjj; rfl
+    have hI : inboxJobs ((w.emit (.dispatched id key acc)).inbox ++ [FMsg.dispatch j]) = inboxJobs w.inbox ++ [j] := by
+      rw [inboxJobs_append]; rfl
+    have hlogS : ∀ k, startedIds (w.emit (.dispatched id key acc)).env.log k = startedIds w.env.log k := by
+      intro k; exact startedIds_of_starts (sameE_emit w.env _ rfl) k
+    have hSf : startedIds (w.emit (.dispatched id key acc)).env.log = startedIds w.env.log := funext hlogS
+    have hwqe : ∀ p, wq p (w.emit (.dispatched id key acc)).env = wq p w.env := fun p => rfl
+    refine ⟨?_, ?_, ?_, ?_, hz', ?_⟩
+    · show OrdW (inboxJobs ((w.emit (.dispatched id key acc)).inbox ++ [FMsg.dispatch j])) (startedIds (w.emit (.dispatched id key acc)).env.log) _
+      rw [hI, hSf]
+      refine ⟨hso.ord.q, hso.ord.m, ?_, hso.ord.mq, ?_, hso.ord.sq, hso.ord.sm⟩
+      · intro x hx y hy
+        rcases List.mem_append.mp hy with hy | hy
+        · exact hso.ord.qi x hx y hy
+        · simp only [List.mem_singleton] at hy; subst hy
+          intro _; rw [hjid]; exact Nat.lt_of_lt_of_le (w2 x hx) hle
+      · intro p hp x hx y hy
+        rcases List.mem_append.mp hy with hy | hy
+        · exact hso.ord.mi p hp x hx y hy
+        · simp only [List.mem_singleton] at hy; subst hy
+          intro _; rw [hjid]; exact Nat.lt_of_lt_of_le (w3 p hp x hx) hle
+    · show (inboxJobs ((w.emit (.dispatched id key acc)).inbox ++ [FMsg.dispatch j])).Pairwise KO
+      rw [hI]
+      refine List.pairwise_append.mpr ⟨hso.i, List.pairwise_singleton _ _, ?_⟩
+      intro a ha b hb
+      simp only [List.mem_singleton] at hb; subst hb
+      intro _; rw [hjid]; exact Nat.lt_of_lt_of_le (w1 a ha) hle
+    · show ∀ x ∈ inboxJobs ((w.emit (.dispatched id key acc)).inbox ++ [FMsg.dispatch j]), ∀ s ∈ startedIds (w.emit (.dispatched id key acc)).env.log x.key, s < x.id
+      rw [hI, hSf]
+      intro x hx s hs
+      rcases List.mem_append.mp hx with hx | hx
+      · exact hso.si x hx s hs
+      · simp only [List.mem_singleton] at hx; subst hx
+        rw [hjid]; exact Nat.lt_of_lt_of_le (hso.sb _ s hs) hle
+    · intro k
+      show (startedIds (w.emit (.dispatched id key acc)).env.log k).Pairwise _
+      rw [hlogS]; exact hso.inc k
+    · intro k s hs
+      have : s ∈ startedIds w.env.log k := by rw [← hlogS]; exact hs
+      exact Nat.lt_of_lt_of_le (hso.sb k s this) (by omega)
+
 end Factory
